@@ -20,11 +20,11 @@ import common  # noqa: E402
 
 S0 = {'foo': 'padding:10', 'tab': 'margin:1'}
 S1 = {'foo': 'padding:10', 'tab': 'border:1'}
-MS1 = {'bad': 'x)', 'good': 'section.sn'}
-OBJS = ['m1', 'm2', 'm3', 'm4', 'm5', 's1', 's2', 's3', 's4', 's5', 's6']
+MS1 = {'bad': 'x)', 'good': 'section.sn', 'sig': 'p.sig{-- ${who}}'}
+OBJS = ['m1', 'm2', 'm3', 'm4', 'm5', 'm6', 's1', 's2', 's3', 's4', 's5', 's6']
 
 ABBR = {
-    'markup': {'ok': 'ul>li.item$*2>a', 'wrap': 'ul>li*', 'badparse': 'ul>li)', 'badsnippet': 'ul>bad*', 'bem': 'div.b>.-e_m+p.b__x'},
+    'markup': {'ok': 'ul>li.item$*2>a', 'wrap': 'ul>li*', 'badparse': 'ul>li)', 'badsnippet': 'ul>bad*', 'bem': 'div.b>.-e_m+p.b__x', 'var': '!>sig'},
     'css': {'num': 'foo', 'tab': 'tab', 'plain': 'p10+m0-a', 'badparse': 'p{'},
 }
 
@@ -36,6 +36,7 @@ def make_objects(emmet):
         'm2': {'options': {'bem.enabled': True}},
         'm3': emmet.Config({'text': 'T', 'snippets': dict(MS1)}),
         'm4': {},
+        'm6': {'variables': {'lang': 'fr', 'who': 'me'}, 'snippets': {'sig': 'p.sig{-- ${who}}'}},
         'm5': {'syntax': 'pug', 'text': ['x', '', 'y'], 'options': {'bem.enabled': True, 'comment.enabled': True}},
         's1': {'type': 'stylesheet', 'snippets': dict(S0), 'options': {'stylesheet.intUnit': 'pt'}, 'cache': k1},
         's2': {'type': 'stylesheet', 'snippets': dict(S0), 'options': {'stylesheet.intUnit': 'px'}, 'cache': k1},
@@ -158,7 +159,7 @@ def _run_histories(items):
 
 def run(out):
     quick = out.tier == 'quick'
-    out.rule = ('one case per call history generated by Session.tla (all histories up to the bound over 49 call kinds = 11 caller '
+    out.rule = ('one case per call history generated by Session.tla (all histories up to the bound over 60 call kinds = 12 caller '
                 'objects x abbreviations, plus simulated longer ones); non-trivial = at least two calls that touch the same caller '
                 'object or the same cache; distinct by history')
     out.assumptions = ['CPython gc census: an object of a class defined in emmet.* that is alive after the call, was not alive before '
